@@ -70,9 +70,10 @@ def piAdd (ri : PI) (pat : Obj) (id : String) : PI × Option PErr :=
 def piRem (ri : PI) (pat : Obj) (id : String) : PI × Option PErr :=
   let pairs := mapToPairs pat
   PI.mod (searchFuel pairs) ri pairs id false
+/-- `SearchPatternsMap`: the trie walk plus the ids sitting on the root (patterns without indexable pairs) -/
 def piSearch (ri : PI) (ev : Obj) : Except PErr (List String) :=
   let pairs := mapToPairs ev
-  PI.search (searchFuel pairs) ri pairs
+  (PI.search (searchFuel pairs) ri pairs).map (fun ids => union ids ri.ids)
 
 def perr : PErr → LErr
   | .notSortable => "notSortable"
@@ -102,23 +103,25 @@ def St.unindexRule (s : St) (id : String) (rule : Obj) : Except LErr St := do
     | some e => .error (perr e)   -- NB: Go keeps the partially modified trie; the error aborts the op
     | none => pure { s with ri := ri }
 
-/-- `indexRule`: unindexes with the *new* rule's pattern when the id exists, then adds.
+/-- `indexRule`: adds the rule's pattern.
 Returns the state even on error (the trie may have been partially extended). -/
 def St.indexRule (s : St) (id : String) (rule : Obj) : St × Option LErr :=
   match getRulePattern rule with
   | .error e => (s, some e)
   | .ok none => (s, some "syntax")
   | .ok (some pat) =>
-    let r1 : St × Option LErr :=
-      if amHas s.facts id then
-        let (ri, e) := piRem s.ri pat id
-        ({ s with ri := ri }, e.map perr)
-      else (s, none)
-    match r1 with
-    | (s1, some e) => (s1, some e)
-    | (s1, none) =>
-      let (ri, e) := piAdd s1.ri pat id
-      ({ s1 with ri := ri }, e.map perr)
+    let (ri, e) := piAdd s.ri pat id
+    ({ s with ri := ri }, e.map perr)
+
+/-- what `add` does first when the id is already stored: the previous rule's pattern leaves the index.
+Returns the previous rule (if any) so that it can be put back when the new one is rejected. -/
+def St.unindexPrevious (s : St) (id : String) : Except LErr (St × Option Obj) :=
+  match amGet s.facts id with
+  | none => .ok (s, none)
+  | some prev =>
+    match extractRule prev false with
+    | .ok (some old, _) => (s.unindexRule id old).map (fun s' => (s', some old))
+    | _ => .ok (s, none)
 
 /-- `IndexedState.add` (memory only). Returns the new state even when it fails half-way. -/
 def St.iadd (s : St) (given : String) (x : Obj) (now : Int) : St × Except LErr (String × Obj) :=
@@ -129,9 +132,20 @@ def St.iadd (s : St) (given : String) (x : Obj) (now : Int) : St × Except LErr 
     match extractRule fact false with
     | .error e => (s, .error e)
     | .ok (rule, fact) =>
+      match s.unindexPrevious id with
+      | .error e => (s, .error e)
+      | .ok (s, replaced) =>
       let (s, err) : St × Option LErr :=
         match rule with
-        | some r => if Obj.has r "schedule" then (s, none) else s.indexRule id r
+        | some r =>
+          if Obj.has r "schedule" then (s, none) else
+          match s.indexRule id r with
+          | (s1, none) => (s1, none)
+          | (s1, some e) =>
+            -- the new rule is rejected: the previous one goes back into the index
+            (match replaced with
+             | some old => if Obj.has old "schedule" then (s1, some e) else ((s1.indexRule id old).1, some e)
+             | none => (s1, some e))
         | none => (s, none)
       match err with
       | some e => (s, .error e)
@@ -169,6 +183,7 @@ def St.ideps (fuel : Nat) (s : St) (id : String) (now : Int) : St × Except LErr
   match fuel with
   | 0 => (s, .error "fuel")
   | fuel + 1 =>
+    if isVar id then (s, .ok ()) else   -- such an id would be a pattern variable
     match St.isearch fuel s [("deleteWith", .arr [.str id])] now with
     | (s1, .error e) => (s1, .error e)
     | (s1, .ok found) => St.iremAll fuel s1 (found.map (·.1)) now
@@ -187,7 +202,9 @@ def St.isearch (fuel : Nat) (s : St) (pattern : Obj) (now : Int) : St × Except 
   match fuel with
   | 0 => (s, .error "fuel")
   | fuel + 1 =>
-    match TI.search s.ti (extractTerms pattern) with
+    -- `SearchForIDs`: no terms = every stored fact is a candidate
+    let cands := if (extractTerms pattern).isEmpty then .ok (s.facts.map (·.1)) else TI.search s.ti (extractTerms pattern)
+    match cands with
     | .error e => (s, .error e)
     | .ok ids => St.isearchLoop fuel s pattern ids now []
 def St.isearchLoop (fuel : Nat) (s : St) (pattern : Obj) (ids : List String) (now : Int)
@@ -219,7 +236,9 @@ def St.fuel (s : St) : Nat := 6 * s.facts.length + 12
 def St.iAdd (s : St) (given : String) (x : Obj) (now : Int) : St × Except LErr String :=
   match s.iadd given x now with
   | (s1, .error e) => (s1, .error e)
-  | (s1, .ok (id, x')) => ({ s1 with store := amSet s1.store id (.obj x') }, .ok id)
+  | (s1, .ok (id, _)) =>
+    -- the *prepared* fact (absolute `expires`) is what goes to storage
+    ({ s1 with store := amSet s1.store id (.obj ((amGet s1.facts id).getD [])) }, .ok id)
 
 def St.iGet (s : St) (id : String) (now : Int) : St × Except LErr Obj :=
   match amGet s.facts id with
@@ -284,6 +303,7 @@ def St.lrem (fuel : Nat) (s : St) (id : String) (now : Int) : St × Except LErr 
   | fuel + 1 =>
     let had := amHas s.facts id
     let s1 := { s with store := amErase s.store id, facts := amErase s.facts id }
+    if isVar id then (s1, .ok had) else   -- such an id would be a pattern variable
     match St.lsearch fuel s1 [("deleteWith", .arr [.str id])] now with
     | (s2, .error e) => (s2, .error e)
     | (s2, .ok found) =>
@@ -334,7 +354,8 @@ def St.lAdd (s : St) (given : String) (x : Obj) (now : Int) : St × Except LErr 
   | .error e => (s, .error e)
   | .ok (id, m, x') =>
     let s := if given == "" && id == s.freshId then { s with fresh := s.fresh + 1 } else s
-    ({ s with store := amSet s.store id (.obj x'), facts := amSet s.facts id m }, .ok id)
+    let _ := x'
+    ({ s with store := amSet s.store id (.obj m), facts := amSet s.facts id m }, .ok id)
 
 def St.lGet (s : St) (id : String) (now : Int) : St × Except LErr Obj :=
   match amGet s.facts id with
